@@ -60,7 +60,14 @@ def register(reg):
                         "use implies(result is not None, mul_nonneg(idx - result[0], self.resolution[0]))",
                         "use implies(result is not None, mul_nonneg(result[0] + 1 - idx, self.resolution[0]))",
                         "use implies(result is not None, mul_nonneg(result[1] - idy, self.resolution[1]))",
-                        "use implies(result is not None, mul_nonneg(idy - (result[1] - 1), self.resolution[1]))"],
+                        "use implies(result is not None, mul_nonneg(idy - (result[1] - 1), self.resolution[1]))",
+                        "use implies(result is not None, distrib(idx, result[0], self.resolution[0]))",
+                        "use implies(result is not None, distrib(result[0] + 1, idx, self.resolution[0]))",
+                        "use implies(result is not None, distrib(result[1], idy, self.resolution[1]))",
+                        "use implies(result is not None, distrib(idy, result[1] - 1, self.resolution[1]))",
+                        "use implies(result is not None, distrib(self.nrow - 1, idy, self.resolution[1]))",
+                        "use implies(result is not None, distrib(self.nrow - 1, result[1], self.resolution[1]))",
+                        "use implies(result is not None, distrib(self.nrow, result[1], self.resolution[1]))"],
                  ensures=[("none-iff-outside", "(result is None) == (not %s)" % INSIDE),
                           ("column-in-range", "implies(result is not None, 0 <= result[0] and result[0] < self.ncol)"),
                           ("line-in-range", "implies(result is not None, 0 <= result[1] and result[1] < self.nrow)"),
